@@ -4,6 +4,7 @@ import (
 	"bytes"
 	"fmt"
 	"regexp"
+	"strconv"
 	"strings"
 
 	"github.com/la5nta/wl2k-go/fbb"
@@ -118,7 +119,7 @@ func mutateTranscript(r Rng, in []byte) []byte {
 
 func runC03(ctx *Ctx) error {
 	r, res := ctx.Rng, ctx.Res
-	res.Rule = "inputs: (a) transcripts recorded from pairs of real sessions (both roles, with and without outbound messages), mutated at every layer: truncation, deletion, insertion (NUL, control bytes, short lines such as 'F>', ';PQ', 'FS A5000'), substitution, numeric boundary values in any decimal field, line replacement, duplication, bit flips; (b) scripted masters delivering payloads whose compressed bytes or decompressed message are damaged (garbage, short LZHUF header, CRC flip, negative/huge Body and File sizes, truncated sections; valid payloads behind proposal lines that declare a wrong uncompressed size, up to 2^63-1); (c) arbitrary bytes. Each is fed to a real Session.Exchange (then EOF). Oracle: returns nil/ErrConnLost/error within the watchdog, no panic, connection closed, allocation bounded by 32 MiB + 8 KiB per input byte. Correspondence: wire bytes, callbacks, stats and result class vs the model side. Non-trivial: mutated or damaged input; distinct by (config, input)."
+	res.Rule = "inputs: (a) transcripts recorded from pairs of real sessions (both roles, with and without outbound messages), mutated at every layer: truncation, deletion, insertion (NUL, control bytes, short lines such as 'F>', ';PQ', 'FS A5000'), substitution, numeric boundary values in any decimal field, line replacement, duplication, bit flips; the remote's answer lines replaced by offset requests (!n, An) around the compressed and the uncompressed size of the message asked for; (b) scripted masters delivering payloads whose compressed bytes or decompressed message are damaged (garbage, short LZHUF header, CRC flip, negative/huge Body and File sizes, truncated sections; valid payloads behind proposal lines that declare a wrong uncompressed size, up to 2^63-1); (c) arbitrary bytes. Each is fed to a real Session.Exchange (then EOF). Oracle: returns nil/ErrConnLost/error within the watchdog, no panic, connection closed, allocation bounded by 32 MiB + 8 KiB per input byte. Correspondence: wire bytes, callbacks, stats and result class vs the model side. Non-trivial: mutated or damaged input; distinct by (config, input)."
 	type tc struct {
 		c  sideCfg
 		in []byte
@@ -127,12 +128,67 @@ func runC03(ctx *Ctx) error {
 	var tcs []tc
 	// (a) recorded transcripts
 	var base []tc
+	var baseOwn [][]byte // what the side under test wrote in the recording
 	for i := 0; i < ctx.N(30, 200); i++ {
 		sc := r.Scenario(3)
 		p := runPair(sc.A, sc.B, 0, -1, -1)
 		base = append(base, tc{sc.A, p.BtoA, "recorded"}, tc{sc.B, p.AtoB, "recorded"})
+		baseOwn = append(baseOwn, p.AtoB, p.BtoA)
 	}
 	tcs = append(tcs, base...)
+	// (a'') offset requests: where the remote answered our proposal block, it asks instead for the
+	// first message from an offset around its compressed and its uncompressed size (the j-th
+	// answer line of the remote belongs to the j-th proposal block we wrote in the recording)
+	for bi, b := range base {
+		var firsts [][2]int // (size, csize) of the first proposal of each block we sent
+		var counts []int
+		inBlock, n := false, 0
+		for _, ln := range bytes.Split(baseOwn[bi], []byte("\r")) {
+			switch {
+			case bytes.HasPrefix(ln, []byte("FC ")):
+				f := strings.Fields(string(ln))
+				if !inBlock && len(f) >= 5 {
+					sz, _ := strconv.Atoi(f[3])
+					cz, _ := strconv.Atoi(f[4])
+					firsts = append(firsts, [2]int{sz, cz})
+				}
+				inBlock = true
+				n++
+			case bytes.HasPrefix(ln, []byte("F> ")):
+				if inBlock {
+					counts = append(counts, n)
+				}
+				inBlock, n = false, 0
+			}
+		}
+		j, pos := 0, 0
+		for pos < len(b.in) && j < len(counts) {
+			end := bytes.IndexByte(b.in[pos:], '\r')
+			if end < 0 {
+				break
+			}
+			if bytes.HasPrefix(b.in[pos:], []byte("FS ")) && (pos == 0 || b.in[pos-1] == '\r') {
+				sz, cz := firsts[j][0], firsts[j][1]
+				for _, off := range []int{cz - 1, cz, cz + 1, (cz + sz) / 2, sz, sz + 1, 999999, 1000000} {
+					if off < 0 {
+						continue
+					}
+					for _, mark := range []string{"!", "A"} {
+						line := "FS " + mark + strconv.Itoa(off) + strings.Repeat("-", counts[j]-1) + "\r"
+						in := append(append([]byte(nil), b.in[:pos]...), line...)
+						if r.Intn(2) == 0 {
+							in = append(in, b.in[pos+end+1:]...)
+						}
+						if r.Intn(3) == 0 || off == cz+1 || off == sz {
+							tcs = append(tcs, tc{b.c, in, "offset-request"})
+						}
+					}
+				}
+				j++
+			}
+			pos += end + 1
+		}
+	}
 	nm := ctx.N(2500, 40000)
 	for i := 0; i < nm; i++ {
 		b := base[r.Intn(len(base))]
